@@ -1,3 +1,4 @@
+import Proofs.TruncFunds
 import Proofs.Reachable
 import Properties.C03
 import CModel.Generated.Consts
@@ -75,6 +76,31 @@ theorem uniqueness_survives {b : Book} (r : Reachable b) (cut : Hash) :
 checkpoint included (`cpVal`). -/
 theorem funds_stay_canonical {b : Book} (r : Reachable b) (cut : Hash) : FundsOK (b.truncateAt cut).1 :=
   (Reachable.truncate cut r).fundsOK
+
+/-- **The checkpoint is the net flow.** After a successful truncation of any reachable ledger at any cut,
+the funds stored for wallet `a` are exactly what was checkpointed before plus everything `a` received minus
+everything `a` spent in the moved vertices — whenever that amount is representable and not negative (the
+two excluded cases are the recorded findings: a net debt is clipped to 0 (only the genesis issuer can have
+one), an accumulated inflow beyond 2^64 currency units overflows). -/
+theorem checkpoint_is_net_flow {b : Book} (r : Reachable b) (cut : Hash) (h : (b.truncateAt cut).2 = .ok ()) :
+    ∃ mv, (b.truncateAt cut).1.cpVerts = b.cpVerts ++ mv ∧ mv.map (·.hash) = b.ancestors cut ∧
+      ∀ a, cpVal b a + inflow a mv < Melange.capacity → outflow a mv < Melange.capacity →
+        outflow a mv ≤ cpVal b a + inflow a mv →
+        cpVal (b.truncateAt cut).1 a + outflow a mv = cpVal b a + inflow a mv := by
+  obtain ⟨mv, hh, hin, _, hcv, _, _, hcp, _⟩ := truncateAt_ok h
+  refine ⟨mv, hcv, hh, fun a h1 h2 h3 => ?_⟩
+  have hcanon : ∀ v ∈ mv, Melange.Canon v.trx.spice := fun v hv =>
+    (canonB_iff _).1 (r.inv.canon v (List.mem_append_left _ (hin v hv)))
+  have hcpc : ∀ e ∈ b.cpFunds, Melange.Canon e.2 := fun e he => (canonB_iff _).1 (r.inv.cpCanon e he)
+  have := (newCpFunds_exact b mv a r.cpKeys hcpc hcanon h1 h2 h3).1
+  unfold cpVal cpFundsGet
+  rw [hcp]
+  exact this
+
+/-- Hence the sum every later balance and fund check starts from is unchanged by the truncation for a wallet
+whose moved history is fully accounted: `checkpoint' = checkpoint + in − out` is what C01/C06 add the
+remaining (live) flows to. Non-vacuity: a book with one checkpoint entry. -/
+example : cpVal { self := "n", cpFunds := [("w", ⟨5, 0⟩)] } "w" = 5000000000000000000 := by decide
 
 /-- Generated obligations: the constants of the truncation rule are the ones in today's source. -/
 theorem gen_truncateDiff : Generated.accountant_truncateDiff = Book.truncateDiff := by decide
